@@ -23,6 +23,7 @@ RULE = ("harness c20, every record produced by the real multi-threaded entry poi
         "a covering subset (thorough: all 528) of (start,length) with cycling thread counts, result compared bit for bit, per bit, with the "
         "single-threaded full preparation, garbage-prefilled receiver; 20004 ten circuit wrappers x thread counts vs single-threaded raw limbs; "
         "20005 N threads on one shared Module + prepared keys + read-only operands with private scratch (nested multi-threaded calls) vs alone; "
+        "20013 ONE module + prepared BDD/CBT key shared, sequentially (every ordered pair) and concurrently (every unordered pair, triples..sextuples), by workloads with different per-call parameters (integer preparation log_domain=1 next to execute_to_constant log_domain=2/3, two other output GGSW layouts, extension factor 2, exponent mode with two domains/layouts), each bit-identical to its solo run on a freshly built identical key; "
         "20006 addresses of the windows of the real Scratch::split_mut; 20007 the documented scratch sizing with nothing added. "
         "With the harness feature c20hook (yield hook work/proposed_hooks/c20_yield.diff in /repo): 20008/20009 the (site, thread_idx, item) "
         "events of an undisturbed evaluation / preparation, grouped by thread_idx, predicted from chunks / chunks_prepare; "
@@ -32,6 +33,7 @@ RULE = ("harness c20, every record produced by the real multi-threaded entry poi
         "bytes compared with the single-threaded entry point; a forced schedule is distinct when its (kind, thread sequence) is. "
         "distinct = distinct (op, params) lines")
 ASSUMPTIONS = [
+    "a module, prepared keys and read-only ciphertexts are immutable data in the model (part of the item function g, never of the state): hidden state written through &self (interior mutability, caches) is outside the Gallina model and is tied only by records 20005/20013 (shared vs solo on a fresh identical key)",
     "per-item results do not depend on the contents of the thread's scratch window (hypothesis Hg of the scheduling theorems; it is C11/C12's conclusion, here only observed: scratch is pre-filled with 0xa5 in 20003/20004)",
     "the model's threads interact only through the output slots and their private scratch: real data races inside Module (`unsafe impl Sync`), in backend handles or lazily initialised statics are outside the Gallina model (named gap; exercised only by 20004/20005 runs)",
     "without the harness feature c20hook OS scheduling is not controlled: adversarial interleavings are covered by the theorem, on the implementation only by oversubscription (threads up to 2*cores, nested scopes); with it, forced schedules serialise the workers at item granularity (one yield point per item, at the top of the loop body): interleavings INSIDE one item's computation are still whatever the OS produces",
@@ -230,6 +232,13 @@ MUTATIONS = {
 }
 
 
+# mutations given as a unified diff (applied with `patch -p1` inside the scratch copy)
+PATCHES = {
+    # per-key OnceLock cache of the circuit-bootstrapping test vector, keyed by mode only: hidden state on a shared prepared key
+    "lut_cache": "seeded/C20e/patch.diff",
+}
+
+
 def _sh(cmd, cwd=None, timeout=3000):
     p = subprocess.run(cmd, cwd=cwd, stdout=subprocess.PIPE, stderr=subprocess.STDOUT, text=True, timeout=timeout,
                        env=dict(os.environ, CARGO_NET_OFFLINE="true"))
@@ -260,20 +269,27 @@ def selftest(names):
         cargo = (verif / "harness" / "Cargo.toml").read_text().replace('"/repo/', f'"{os.environ.get("C20_REPO", str(MUT))}/')
         (MUT_H / "Cargo.toml").write_text(cargo)
         for name in names:
-            rel, old, new = MUTATIONS[name]
-            orig = (Path("/repo") / rel).read_text()
-            assert orig.count(old) == 1, f"{name}: anchor not found exactly once in {rel}"
-            (MUT / rel).write_text(orig.replace(old, new))
+            if name in PATCHES:
+                pf = str(verif / PATCHES[name])
+                rc, out = _sh(["patch", "-p1", "-i", pf], cwd=MUT)
+                assert rc == 0, f"{name}: patch does not apply: {out[-400:]}"
+                restore = lambda pf=pf: _sh(["patch", "-R", "-p1", "-i", pf], cwd=MUT)
+            else:
+                rel, old, new = MUTATIONS[name]
+                orig = (Path("/repo") / rel).read_text()
+                assert orig.count(old) == 1, f"{name}: anchor not found exactly once in {rel}"
+                (MUT / rel).write_text(orig.replace(old, new))
+                restore = lambda rel=rel, orig=orig: (MUT / rel).write_text(orig)
             rc, out = _sh(["cargo", "build", "--offline", "--release", "--features", "avx", "--bin", "c20"], cwd=MUT_H)
             if rc != 0:
                 results[name] = {"build": "FAILED", "log": out[-1500:]}
-                (MUT / rel).write_text(orig)
+                restore()
                 continue
             recs = MUT_H / f"records_{name}.txt"
             rc, out = _sh([str(MUT_H / "target" / "release" / "c20"), "gen", "quick", "1", str(recs)])
             if rc != 0:
                 results[name] = {"harness": f"exit {rc}", "log": out[-800:]}
-                (MUT / rel).write_text(orig)
+                restore()
                 continue
             rc, out = _sh([str(drv), str(recs)])
             lines = recs.read_text().splitlines()
@@ -292,7 +308,7 @@ def selftest(names):
                         first = lines[int(p[0]) - 1][:200]
             results[name] = {"records": len(lines), "corr_diff": diff, "oracle_fails": ofail, "flagged_by_code": by_code,
                              "first_oracle_failure": first, "detected": bool(ofail or diff)}
-            (MUT / rel).write_text(orig)
+            restore()
     finally:
         _cleanup()
     print(json.dumps(results, indent=1))
@@ -423,7 +439,7 @@ def _selftest_sched_one(mutation, runs):
 
 if __name__ == "__main__":
     if len(sys.argv) >= 2 and sys.argv[1] == "selftest":
-        sys.exit(selftest(sys.argv[2:] or list(MUTATIONS)))
+        sys.exit(selftest(sys.argv[2:] or (list(MUTATIONS) + list(PATCHES))))
     if len(sys.argv) >= 2 and sys.argv[1] == "selftest-sched":
         sys.exit(selftest_sched(sys.argv[2:] or list(SCHED_MUTATIONS)))
     print(__doc__)
